@@ -248,4 +248,6 @@ def build(tier):
     P.assumptions += ["fitness histories are non-empty (np.mean of an empty slice is NaN) - excluded by precondition",
                       "floats as reals; NaN fitness excluded"]
     P.uncovered += ["'faithful copy' and 'old population untouched' rest on the clone contract (property C01)"]
+    P.native.append(dict(name='selection', adapter='c05:select', thorough_only=True, payload={"mode": "search"},
+                         bound='stub-agent populations (sizes 2-8, ties, equal fitness windows) with spied draws: elite maximal, winners best of their draw, fresh indices, elite first'))
     return P
